@@ -60,11 +60,25 @@ def run_impl(case, outcome):
     def state():
         return [el.value == "On" for el in els]
 
+    # observers: plain Write and Change handlers on every switch record the vector as a handler sees it at that moment
+    # ("always" in C09 includes every moment user code can look); they change nothing
+    seen = []
+    if case.get("observe", True):
+        from indi.device import events
+
+        def observer(ev):
+            seen.append([el._value == "On" for el in els])
+
+        for el in els:
+            el._definition.attach_event_handler(events.Write, observer)
+            el._definition.attach_event_handler(events.Change, observer)
+
     qs = []
     steps = []
     before = state()
     for k, op in enumerate(case["ops"]):
         del published[:]
+        del seen[:]
         exc = None
         try:
             if op[0] == "A":
@@ -102,9 +116,15 @@ def run_impl(case, outcome):
         # unknown names (index == n) in a selection raise by design before anything is assigned
         expected_exc = op[0] == "S" and any(i >= n for i in op[1])
         oracle_expect = "True" if (not exc or expected_exc) and not bad else "raised-or-unexpected"
-        qs.append(Query("spec sw %s %s %s %d %s %s" % (rule, bits(before), enc_op(op), len(snaps),
-                                                      " ".join(bits(s) for s in snaps if not isinstance(s, str)), bits(after)),
-                        oracle_expect, "oracle"))
+        osnaps = [s for s in snaps if not isinstance(s, str)]
+        # what handlers saw: a Write handler sees the state before the store, any later one a state the rule must allow;
+        # judged like published snapshots, except that AnyOfMany's "only the named switch differs" is judged on published ones
+        hsnaps = [h for h in seen if h != before] if rule != "AnyOfMany" else []
+        outcome.count("handler-observations", len(seen))
+        allsn = osnaps + hsnaps
+        qs.append(Query("spec sw %s %s %s %d %s %s" % (rule, bits(before), enc_op(op), len(allsn),
+                                                      " ".join(bits(s) for s in allsn), bits(after)),
+                        oracle_expect, "oracle", "a published snapshot, a state seen by an event handler, or the final state breaks the rule"))
         outcome.nontrivial.add((rule, bits(before), enc_op(op)))
         before = after
     line = "%s %s %d %s" % (rule, bits(init), len(case["ops"]), " ".join(enc_op(o) for o in case["ops"]))
